@@ -18,14 +18,18 @@ pub fn make_ctx(tier: Tier, seed: u64) -> Result<Ctx, String> {
 pub fn make_ctx_for(prop: &str, tier: Tier, seed: u64) -> Result<Ctx, String> {
     let mut corpus = crate::corpus::load()?;
     if prop == "C07" || prop == "C08" {
-        let (nx, no) = match tier {
-            Tier::Quick => (16, 8),
-            Tier::Thorough => (160, 80),
+        let per = match tier {
+            Tier::Quick => [16u64, 8, 8, 8],
+            Tier::Thorough => [160, 80, 80, 80],
         };
-        for k in 0..nx + no {
-            let s = crate::prng::h3(seed, crate::prng::tag("synth"), k);
-            if let Some(fx) = crate::synth::make(&crate::synth::name_for(s, k >= nx)) {
-                corpus.push(fx);
+        let mut k = 0;
+        for (ext, n) in ["xlsx", "ods", "xls", "xlsb"].iter().zip(per) {
+            for _ in 0..n {
+                let s = crate::prng::h3(seed, crate::prng::tag("synth"), k);
+                k += 1;
+                if let Some(fx) = crate::synth::make(&crate::synth::name_with_ext(s, ext)) {
+                    corpus.push(fx);
+                }
             }
         }
     }
